@@ -745,4 +745,26 @@ ring degree `n`, NTT120 back end: everything executable -/
 def svpPipeline (P : PrimeSet) (n : Nat) (p x : Poly) : List Int :=
   nttPipeline P (bbcH P) (realNtt P n) (realIntt P n) p x
 
+/-! ### sums of products (the arithmetic of `vmp_apply_dft_to_dft` for one output column) -/
+
+/-- one slot of a sum of products: `bbc` with one row per pair `(lazy residue of the input limb's
+transform, lazy residue of the matrix entry's transform)`, the second prepared by `c_from_b` -/
+def slotDotK (q h : Nat) (pairs : List (Nat × Nat)) : Nat :=
+  bbcK h (pow2Mod 32 q) (pow2Mod (32 + h) q)
+    (pairs.map (fun p => ((u32Pair p.1).1, (u32Pair p.1).2, (cFromBK q p.2).getD 0 0, (cFromBK q p.2).getD 1 0)))
+
+/-- lane of prime `q` for `Σ_j p_j ⋆ x_j`: `rows = [(p_j, x_j)]`, `p_j` the prepared (matrix) side -/
+def laneSumK (q h n : Nat) (ntt intt : List Nat → List Nat) (rows : List (Poly × Poly)) : List Nat :=
+  let tr := rows.map (fun r => (ntt (r.2.map (fun c => bFromU64K q (asU64 c))), ntt (r.1.map (fun c => bFromU64K q (asU64 c)))))
+  intt ((List.range n).map (fun i => slotDotK q h (tr.map (fun r => (r.1.getD i 0, r.2.getD i 0)))))
+
+/-- `vmp_prepare` of the rows `p_j`, `vec_znx_dft_apply` of the limbs `x_j`, `vmp_apply_dft_to_dft` (one
+output column, `ell = |rows|`), `vec_znx_idft_apply`: everything executable -/
+def vmpPipeline (P : PrimeSet) (n : Nat) (rows : List (Poly × Poly)) : List Int :=
+  let l0 := laneSumK P.q0 (bbcH P) n (realNtt P n 0) (realIntt P n 0) rows
+  let l1 := laneSumK P.q1 (bbcH P) n (realNtt P n 1) (realIntt P n 1) rows
+  let l2 := laneSumK P.q2 (bbcH P) n (realNtt P n 2) (realIntt P n 2) rows
+  let l3 := laneSumK P.q3 (bbcH P) n (realNtt P n 3) (realIntt P n 3) rows
+  (List.range n).map (fun i => bToZnx128Core P (l0.getD i 0) (l1.getD i 0) (l2.getD i 0) (l3.getD i 0))
+
 end Ntt120
